@@ -791,6 +791,7 @@ func main() {
 		for natt := 0; natt <= 3; natt++ {
 			runOffline(run, natt, []string{"websocket"})
 		}
+		runRetryQueueAll(run) // the retry queue's timers, replies and drains under the race detector
 		run.Finish()
 	}
 	for _, tr := range [][]string{{"websocket"}, {"polling"}, {"polling", "websocket"}} {
